@@ -111,7 +111,8 @@ def run(ctx):
         for (ln, mt, g_) in zip(lines_nj, meta, go):
             pg = decgen.parse(g_)
             if "h" in pg:
-                plain_groups[mt[0]].append((pg["h"], int(pg["len"]), ln, g_))
+                asked = sum((int(x.split("*")[0]) * int(x.split("*")[1]) if "*" in x else int(x)) for x in ln.split()[5].split(","))
+                plain_groups[(mt[0], min(asked, mt[2]))].append((pg["h"], int(pg["len"]), ln, g_))
         for g, items in plain_groups.items():
             if len({(h, l) for h, l, _, _ in items}) > 1:
                 a = items[0]
@@ -164,7 +165,11 @@ def run(ctx):
                 viol.append({"property": PID, "kind": "decoder-api", "what": bad, "case": ln[:4000], "observed": c[:300],
                              "sig": "api:" + m})
                 continue
-            groups[g].append((pc["h"], ln_, ln, c))
+            # split invariance is a statement about schedules that ask for the same number of bytes (capped by the declared
+            # length): a -pm1-/-pm2- stream whose input has ended still yields bytes from the zero bits that follow, so two
+            # schedules asking for different totals below the declared length rightly end at different lengths
+            asked = sum((int(x.split("*")[0]) * int(x.split("*")[1]) if "*" in x else int(x)) for x in ln.split()[5].split(","))
+            groups[(g, min(asked, decl))].append((pc["h"], ln_, ln, c))
             if i in mo and mo[i] != c:
                 mism.append({"case": ln[:3000], "c": c[:300], "model": mo[i][:300]})
         for g, items in groups.items():
